@@ -49,6 +49,7 @@ pub fn boxed_zeros(n: usize) -> (r: Box<[u32]>)
     ensures r@.len() == n, forall|i: int| 0 <= i < n ==> r@[i] == 0
 { vec![0; n].into_boxed_slice() }
 
+#[derive(Clone, Copy)]
 pub struct Uniform<T> { pub lo: T, pub hi: T }
 #[verifier::external_body]
 pub fn uniform_new_u32(lo: u32, hi: u32) -> (r: Result<Uniform<u32>, Error>)
@@ -59,6 +60,26 @@ pub fn uniform_new_w(lo: W, hi: W) -> (r: Result<Uniform<W>, Error>)
     ensures lo < hi ==> (r matches Ok(u) && u.lo == lo && u.hi == hi)
 { Ok(Uniform { lo, hi }) }
 
+
+/// R7: rand's `Rng::sample(distr)` for the two uniform samplers used here; assumed contract: lo <= r < hi
+pub trait Dist { type Out; spec fn lo_(&self) -> int; spec fn hi_(&self) -> int; spec fn val(o: Self::Out) -> int; }
+impl Dist for Uniform<u32> { type Out = u32; open spec fn lo_(&self) -> int { self.lo as int } open spec fn hi_(&self) -> int { self.hi as int } open spec fn val(o: u32) -> int { o as int } }
+impl Dist for &Uniform<W> { type Out = W; open spec fn lo_(&self) -> int { self.lo as int } open spec fn hi_(&self) -> int { self.hi as int } open spec fn val(o: W) -> int { o as int } }
+pub trait Rng {
+    fn sample<D: Dist>(&mut self, distr: D) -> (r: D::Out)
+        requires distr.lo_() < distr.hi_(),
+        ensures distr.lo_() <= D::val(r) < distr.hi_();
+}
+/// R10: `a.iter().zip(&b).map(|(&x, &y)| (x + y) / d).collect()`
+#[verifier::external_body]
+pub fn zip_add_div(a: &Box<[W]>, b: &Vec<W>, d: W) -> (r: Vec<W>)
+    requires a@.len() == b@.len(), d > 0, forall|i: int| 0 <= i < a@.len() ==> (#[trigger] a@[i]) as int + b@[i] as int <= u64::MAX,
+    ensures r@.len() == a@.len(), forall|i: int| 0 <= i < a@.len() ==> (#[trigger] r@[i]) as int == (a@[i] as int + b@[i] as int) / (d as int),
+{ a.iter().zip(b).map(|(&x, &y)| (x + y) / d).collect() }
+#[verifier::external_body]
+pub fn vec_zeros(n: usize) -> (r: Vec<W>)
+    ensures r@.len() == n, forall|i: int| 0 <= i < n ==> (#[trigger] r@[i]) == 0
+{ vec![0; n] }
 
 // ------------------------------------------------------------------ specs
 pub open spec fn isum(f: spec_fn(int) -> int, n: int) -> int decreases n {
@@ -269,6 +290,7 @@ pub open spec fn table_ok(t: WeightedAliasIndex, w: Seq<W>) -> bool {
     let n = w.len() as int; let o = t.no_alias_odds@; let a = t.aliases@; let s = t.weight_sum as int;
     &&& 0 < n <= u32::MAX && o.len() == n && a.len() == n
     &&& s == seq_sum(w, n) && s > 0
+    &&& forall|i: int| 0 <= i < n ==> n * (#[trigger] w[i] as int) <= u64::MAX
     &&& t.uniform_index.lo == 0 && t.uniform_index.hi == n
     &&& t.uniform_within_weight_sum.lo == 0 && t.uniform_within_weight_sum.hi == s
     &&& forall|j: int| 0 <= j < n ==> (#[trigger] o[j]) as int <= s && ((o[j] as int) < s ==> (a[j] as int) < n)
@@ -292,9 +314,9 @@ pub open spec fn pair_inv(n: int, w: Seq<W>, s: int, o: Seq<W>, a: Seq<u32>, sh:
     &&& forall|k: int| 0 <= k < bigs.len() ==> st[(#[trigger] bigs[k]) as int] == 1
     &&& isum(t_cnt(st, 0), n) == smalls.len() && isum(t_cnt(st, 1), n) == bigs.len()
     &&& forall|j: int| 0 <= j < n ==> 0 <= #[trigger] st[j] <= 2
-    &&& forall|j: int| 0 <= j < n ==> (st[j] == 0 ==> (#[trigger] o[j] as int) < s)
+    &&& forall|j: int| 0 <= j < n ==> (st[j] == 0 ==> (#[trigger] o[j] as int) <= s)
     &&& forall|j: int| 0 <= j < n ==> (st[j] == 1 ==> (#[trigger] o[j] as int) >= s)
-    &&& forall|j: int| 0 <= j < n ==> (st[j] == 2 ==> (#[trigger] o[j] as int) < s && (a[j] as int) < n)
+    &&& forall|j: int| 0 <= j < n ==> (st[j] == 2 ==> (#[trigger] o[j] as int) <= s && (a[j] as int) < n)
     &&& isum(t_listed_odds(o, st), n) == s * isum(t_listed_cnt(st), n)
     &&& forall|i: int| 0 <= i < n ==> (#[trigger] o[i]) as int + isum(t_contrib(a, o, st, s, i), n) == n * (w[i] as int)
 }
@@ -303,6 +325,18 @@ impl WeightedAliasIndex {
     pub fn new(weights: Vec<W>) -> (res: Result<Self, Error>)
         ensures
             res matches Ok(t) ==> table_ok(t, weights@),
+            res matches Err(e) ==> ({
+                let n = weights@.len() as int;
+                let bad_len = n == 0 || n > u32::MAX;
+                let bad_w = exists|i: int| 0 <= i < n && (#[trigger] weights@[i]) as int > (u64::MAX as int) / n;
+                &&& (e == Error::InvalidInput <==> bad_len)
+                &&& (e == Error::InvalidWeight <==> !bad_len && bad_w)
+                &&& (e == Error::InsufficientNonZero <==> !bad_len && !bad_w && seq_sum(weights@, n) == 0)
+                &&& (e == Error::InvalidInput || e == Error::InvalidWeight || e == Error::InsufficientNonZero)
+            }),
+            res is Ok <==> (0 < weights@.len() <= u32::MAX
+                && (forall|i: int| 0 <= i < weights@.len() ==> (#[trigger] weights@[i]) as int <= (u64::MAX as int) / (weights@.len() as int))
+                && seq_sum(weights@, weights@.len() as int) > 0),
     {
         let n = weights.len();
         if n == 0 || n > u32::MAX as usize {
@@ -382,7 +416,7 @@ impl WeightedAliasIndex {
                 isum(t_cnt(st, 0), nn) == smalls.len(), isum(t_cnt(st, 1), nn) == bigs.len(),
                 forall|j: int| 0 <= j < index ==> (#[trigger] st[j] == 0 || st[j] == 1),
                 forall|j: int| index <= j < nn ==> #[trigger] st[j] == 3,
-                forall|j: int| 0 <= j < nn ==> (st[j] == 0 ==> (#[trigger] o0[j] as int) < gs),
+                forall|j: int| 0 <= j < nn ==> (st[j] == 0 ==> (#[trigger] o0[j] as int) <= gs),
                 forall|j: int| 0 <= j < nn ==> (st[j] == 1 ==> (#[trigger] o0[j] as int) >= gs),
         {
             let odds = no_alias_odds[index];
@@ -443,8 +477,10 @@ impl WeightedAliasIndex {
             let ghost o_pre = no_alias_odds@; let ghost a_pre = aliases.aliases@;
             let ghost sh_pre = aliases.smalls_head; let ghost bh_pre = aliases.bigs_head;
             proof {
-                lemma_pair_step(nn, w, gs, o_pre, a_pre, sh_pre, bh_pre, smalls, bigs, st,
-                    (o_pre[bigs[0] as int] as int - gs + o_pre[smalls[0] as int] as int) < gs);
+                lemma_list_pop(a_pre, sh_pre, smalls, nn);
+                lemma_list_pop(a_pre, bh_pre, bigs, nn);
+                assert(st[smalls[0] as int] == 0 && st[bigs[0] as int] == 1);
+                assert((o_pre[smalls[0] as int] as int) <= gs && (o_pre[bigs[0] as int] as int) >= gs);
             }
             let s = aliases.pop_small();
             let b = aliases.pop_big();
@@ -456,6 +492,7 @@ impl WeightedAliasIndex {
             if no_alias_odds[b as usize] < weight_sum {
                 aliases.push_small(b);
                 proof {
+                    lemma_pair_step(nn, w, gs, o_pre, a_pre, sh_pre, bh_pre, smalls, bigs, st, true);
                     st = st.update(s as int, 2).update(b as int, 0);
                     smalls = seq![b] + smalls.drop_first();
                     bigs = bigs.drop_first();
@@ -463,6 +500,7 @@ impl WeightedAliasIndex {
             } else {
                 aliases.push_big(b);
                 proof {
+                    lemma_pair_step(nn, w, gs, o_pre, a_pre, sh_pre, bh_pre, smalls, bigs, st, false);
                     st = st.update(s as int, 2);
                     smalls = smalls.drop_first();
                     bigs = seq![b] + bigs.drop_first();
@@ -479,12 +517,22 @@ impl WeightedAliasIndex {
         let ghost a_fin = aliases.aliases@;
         let ghost bh_fin = aliases.bigs_head;
         while !aliases.smalls_is_empty()
-            invariant smalls.len() == 0, list_ok(aliases.aliases@, aliases.smalls_head, smalls, nn),
+            invariant
                 no_alias_odds@ == o_fin, aliases.aliases@ == a_fin, aliases.bigs_head == bh_fin,
+                o_fin.len() == nn, a_fin.len() == nn, 0 < nn <= u32::MAX, gs == weight_sum as int,
+                list_ok(a_fin, aliases.smalls_head, smalls, nn),
+                forall|k: int| 0 <= k < smalls.len() ==> (#[trigger] o_fin[smalls[k] as int]) as int == gs,
             decreases smalls.len(),
         {
-            assert(false);
+            proof { lemma_list_pop(a_fin, aliases.smalls_head, smalls, nn); }
             no_alias_odds[aliases.pop_small() as usize] = weight_sum;
+            proof {
+                assert(o_fin[smalls[0] as int] as int == gs);
+                assert(no_alias_odds@ =~= o_fin);
+                let sm1 = smalls.drop_first();
+                assert forall|k: int| 0 <= k < sm1.len() implies (#[trigger] o_fin[sm1[k] as int]) as int == gs by { assert(sm1[k] == smalls[k + 1]); }
+                smalls = sm1;
+            }
         }
         while !aliases.bigs_is_empty()
             invariant
@@ -511,6 +559,10 @@ impl WeightedAliasIndex {
         let uniform_within_weight_sum = uniform_new_w(W::ZERO, weight_sum).unwrap();
 
         proof {
+            assert forall|i: int| 0 <= i < nn implies nn * (#[trigger] w[i] as int) <= u64::MAX by {
+                assert(w[i] as int * nn <= u64::MAX);
+                assert(w[i] as int * nn == nn * (w[i] as int)) by (nonlinear_arith);
+            }
             assert forall|i: int| 0 <= i < nn implies (#[trigger] o_fin[i]) as int + isum(t_final_contrib(a_fin, o_fin, gs, i), nn) == nn * (w[i] as int) by {
                 lemma_isum_ext(t_final_contrib(a_fin, o_fin, gs, i), t_contrib(a_fin, o_fin, st, gs, i), nn);
             }
@@ -525,14 +577,14 @@ impl WeightedAliasIndex {
     }
 }
 
-/// when the pairing loop stops: no small is left; every listed index has odds exactly `s`
+/// when the pairing loop stops every listed index has odds exactly `s` (integers: nothing is left over)
 pub proof fn lemma_pair_exit(n: int, w: Seq<W>, s: int, o: Seq<W>, a: Seq<u32>, sh: u32, bh: u32,
                              smalls: Seq<u32>, bigs: Seq<u32>, st: Seq<int>)
     requires pair_inv(n, w, s, o, a, sh, bh, smalls, bigs, st), smalls.len() == 0 || bigs.len() == 0,
     ensures
-        smalls.len() == 0,
         forall|j: int| 0 <= j < n ==> (st[j] != 2 ==> (#[trigger] o[j]) as int == s),
         forall|k: int| 0 <= k < bigs.len() ==> (#[trigger] o[bigs[k] as int]) as int == s,
+        forall|k: int| 0 <= k < smalls.len() ==> (#[trigger] o[smalls[k] as int]) as int == s,
 {
     let f = |j: int| if st[j] != 2 { o[j] as int - s } else { 0int };
     let lo = t_listed_odds(o, st); let lc = t_listed_cnt(st);
@@ -540,27 +592,137 @@ pub proof fn lemma_pair_exit(n: int, w: Seq<W>, s: int, o: Seq<W>, a: Seq<u32>, 
     lemma_isum_ext(f, |j: int| lo(j) - s * lc(j), n);
     assert(isum(f, n) == 0);
     if bigs.len() == 0 {
-        // no index has status 1
-        assert forall|j: int| 0 <= j < n implies st[j] != 1 by {
-            lemma_isum_zero(t_cnt(st, 1), n, j);
-        }
-        if smalls.len() > 0 {
-            let p = smalls[0] as int;
-            assert(st[smalls[0] as int] == 0);
-            assert forall|j: int| 0 <= j < n implies #[trigger] f(j) <= 0 by { assert(0 <= st[j] <= 2); if st[j] == 0 { assert((o[j] as int) < s); } }
-            assert((o[p] as int) < s);
-            lemma_isum_neg(f, n, p);
-            assert(false);
-        }
+        assert forall|j: int| 0 <= j < n implies st[j] != 1 by { lemma_isum_zero(t_cnt(st, 1), n, j); }
+        let g = |j: int| -f(j);
+        lemma_isum_negate(f, n);
+        assert forall|j: int| 0 <= j < n implies #[trigger] g(j) >= 0 by { assert(0 <= st[j] <= 2); if st[j] == 0 { assert((o[j] as int) <= s); } }
+        assert forall|j: int| 0 <= j < n implies (st[j] != 2 ==> (#[trigger] o[j]) as int == s) by { lemma_isum_zero(g, n, j); }
+    } else {
+        assert forall|j: int| 0 <= j < n implies st[j] != 0 by { lemma_isum_zero(t_cnt(st, 0), n, j); }
+        assert forall|j: int| 0 <= j < n implies #[trigger] f(j) >= 0 by { assert(0 <= st[j] <= 2); if st[j] == 1 { assert((o[j] as int) >= s); } }
+        assert forall|j: int| 0 <= j < n implies (st[j] != 2 ==> (#[trigger] o[j]) as int == s) by { lemma_isum_zero(f, n, j); }
     }
-    // now smalls is empty: no index has status 0
-    assert forall|j: int| 0 <= j < n implies st[j] != 0 by { lemma_isum_zero(t_cnt(st, 0), n, j); }
-    assert forall|j: int| 0 <= j < n implies #[trigger] f(j) >= 0 by { assert(0 <= st[j] <= 2); if st[j] == 1 { assert((o[j] as int) >= s); } }
-    assert forall|j: int| 0 <= j < n implies (st[j] != 2 ==> (#[trigger] o[j]) as int == s) by { lemma_isum_zero(f, n, j); }
     assert forall|k: int| 0 <= k < bigs.len() implies (#[trigger] o[bigs[k] as int]) as int == s by { assert(st[bigs[k] as int] == 1); }
+    assert forall|k: int| 0 <= k < smalls.len() implies (#[trigger] o[smalls[k] as int]) as int == s by { assert(st[smalls[k] as int] == 0); }
 }
 
 pub open spec fn old_head_s(a: Seq<u32>, idx: int) -> u32 { a[idx] }
+
+
+pub open spec fn pick(o: Seq<W>, a: Seq<u32>, c: int, t: int) -> int { if t < o[c] as int { c } else { a[c] as int } }
+
+pub proof fn lemma_isum_ge_term(f: spec_fn(int) -> int, n: int, p: int)
+    requires forall|j: int| 0 <= j < n ==> #[trigger] f(j) >= 0, 0 <= p < n
+    ensures isum(f, n) >= f(p)
+    decreases n
+{ lemma_isum_nonneg(f, n - 1); if p < n - 1 { lemma_isum_ge_term(f, n - 1, p); } }
+
+pub proof fn lemma_isum_mono(f: spec_fn(int) -> int, m: int, n: int)
+    requires forall|j: int| 0 <= j < n ==> #[trigger] f(j) >= 0, 0 <= m <= n
+    ensures isum(f, m) <= isum(f, n)
+    decreases n - m
+{ if m < n { lemma_isum_mono(f, m + 1, n); } }
+
+impl WeightedAliasIndex {
+    pub fn weights(&self, Ghost(w): Ghost<Seq<W>>) -> (r: Vec<W>)
+        requires table_ok(*self, w),
+        ensures r@ == w,
+    {
+        let n = self.aliases.len();
+        let ghost nn = n as int; let ghost s = self.weight_sum as int;
+        let ghost o = self.no_alias_odds@; let ghost a = self.aliases@;
+
+        // `n` was validated in the constructor.
+        let n_converted = W::try_from_u32_lossy(n as u32).unwrap();
+
+        // pre-calculate the total contribution each index receives from serving
+        // as an alias for other indices.
+        let mut alias_contributions = vec_zeros(n);
+        for j in 0..n
+            invariant
+                table_ok(*self, w), nn == n, nn == w.len(), s == self.weight_sum as int, o == self.no_alias_odds@, a == self.aliases@,
+                alias_contributions@.len() == nn,
+                forall|i: int| 0 <= i < nn ==> (#[trigger] alias_contributions@[i]) as int == isum(t_final_contrib(a, o, s, i), j as int),
+        {
+            let ghost before = alias_contributions@;
+            assert(o[j as int] as int <= s);
+            if self.no_alias_odds[j] < self.weight_sum {
+                let contribution = self.weight_sum - self.no_alias_odds[j];
+                let alias_index = self.aliases[j] as usize;
+                proof {
+                    let f = t_final_contrib(a, o, s, alias_index as int);
+                    assert forall|k: int| 0 <= k < nn implies #[trigger] f(k) >= 0 by { assert(o[k] as int <= s); }
+                    lemma_isum_mono(f, j as int + 1, nn);
+                    assert(o[alias_index as int] as int + isum(f, nn) == nn * (w[alias_index as int] as int));
+                    lemma_table_bound(*self, w, alias_index as int);
+                }
+                alias_contributions[alias_index] += contribution;
+            }
+            proof {
+                assert forall|i: int| 0 <= i < nn implies (#[trigger] alias_contributions@[i]) as int == isum(t_final_contrib(a, o, s, i), j as int + 1) by {
+                    assert(before[i] as int == isum(t_final_contrib(a, o, s, i), j as int));
+                }
+            }
+        }
+
+        // Reconstruct each weight by combining its direct `no_alias_odds`
+        // with its total `alias_contributions` and scaling the result.
+        proof {
+            assert forall|i: int| 0 <= i < nn implies (#[trigger] o[i]) as int + alias_contributions@[i] as int == nn * (w[i] as int) by {}
+            assert forall|i: int| 0 <= i < nn implies (#[trigger] o[i]) as int + alias_contributions@[i] as int <= u64::MAX by { lemma_table_bound(*self, w, i); }
+        }
+        let r = zip_add_div(&self.no_alias_odds, &alias_contributions, n_converted);
+        proof {
+            assert forall|i: int| 0 <= i < nn implies r@[i] == w[i] by {
+                assert((nn * (w[i] as int)) / nn == w[i] as int) by (nonlinear_arith) requires nn > 0;
+            }
+            assert(r@ =~= w);
+        }
+        r
+    }
+
+    pub fn sample<R: Rng>(&self, rng: &mut R, Ghost(w): Ghost<Seq<W>>) -> (r: usize)
+        requires table_ok(*self, w),
+        ensures
+            r < w.len(), w[r as int] > 0,
+            exists|c: int, t: int| 0 <= c < w.len() && 0 <= t < self.weight_sum && r as int == #[trigger] pick(self.no_alias_odds@, self.aliases@, c, t),
+    {
+        let candidate = rng.sample(self.uniform_index);
+        let ghost o = self.no_alias_odds@; let ghost a = self.aliases@; let ghost s = self.weight_sum as int; let ghost nn = w.len() as int;
+        assert(o[candidate as int] as int <= s);
+        let t_ = rng.sample(&self.uniform_within_weight_sum);
+        let res = if t_ < self.no_alias_odds[candidate as usize] {
+            candidate as usize
+        } else {
+            self.aliases[candidate as usize] as usize
+        };
+        proof {
+            assert(res as int == pick(o, a, candidate as int, t_ as int));
+            let f = t_final_contrib(a, o, s, res as int);
+            assert forall|k: int| 0 <= k < nn implies #[trigger] f(k) >= 0 by { assert(o[k] as int <= s); }
+            lemma_isum_nonneg(f, nn);
+            assert(o[res as int] as int + isum(f, nn) == nn * (w[res as int] as int));
+            if t_ < o[candidate as int] { } else { lemma_isum_ge_term(f, nn, candidate as int); }
+            assert(nn * (w[res as int] as int) > 0);
+            assert(w[res as int] > 0) by (nonlinear_arith) requires nn * (w[res as int] as int) > 0, nn > 0, w[res as int] >= 0;
+        }
+        res
+    }
+}
+
+pub proof fn lemma_table_bound(t: WeightedAliasIndex, w: Seq<W>, i: int)
+    requires table_ok(t, w), 0 <= i < w.len()
+    ensures (w.len() as int) * (w[i] as int) <= u64::MAX
+{ }
+pub proof fn lemma_seq_sum_ge(w: Seq<W>, n: int, i: int)
+    requires 0 <= i < n <= w.len()
+    ensures seq_sum(w, n) >= w[i]
+    decreases n
+{ lemma_seq_sum_nonneg(w, n - 1); if i < n - 1 { lemma_seq_sum_ge(w, n - 1, i); } }
+pub proof fn lemma_seq_sum_nonneg(w: Seq<W>, n: int)
+    ensures seq_sum(w, n) >= 0
+    decreases n
+{ if n > 0 { lemma_seq_sum_nonneg(w, n - 1); } }
 
 pub proof fn lemma_isum_zero_fn(f: spec_fn(int) -> int, n: int)
     requires forall|j: int| 0 <= j < n ==> #[trigger] f(j) == 0
@@ -593,7 +755,8 @@ pub proof fn lemma_pair_step(n: int, w: Seq<W>, s: int, o: Seq<W>, a: Seq<u32>, 
                              smalls: Seq<u32>, bigs: Seq<u32>, st: Seq<int>, to_small: bool)
     requires
         pair_inv(n, w, s, o, a, sh, bh, smalls, bigs, st), smalls.len() > 0, bigs.len() > 0,
-        to_small == ((o[bigs[0] as int] as int - s + o[smalls[0] as int] as int) < s),
+        to_small ==> (o[bigs[0] as int] as int - s + o[smalls[0] as int] as int) <= s,
+        !to_small ==> (o[bigs[0] as int] as int - s + o[smalls[0] as int] as int) >= s,
     ensures ({
         let si = smalls[0] as int; let bi = bigs[0] as int;
         let nb = o[bi] as int - s + o[si] as int;
@@ -609,7 +772,7 @@ pub proof fn lemma_pair_step(n: int, w: Seq<W>, s: int, o: Seq<W>, a: Seq<u32>, 
 {
     let si = smalls[0] as int; let bi = bigs[0] as int;
     assert(st[smalls[0] as int] == 0 && st[bigs[0] as int] == 1);
-    assert((o[si] as int) < s && (o[bi] as int) >= s);
+    assert((o[si] as int) <= s && (o[bi] as int) >= s);
     let nb = o[bi] as int - s + o[si] as int;
     let a1 = a.update(si, bigs[0]);
     let o1 = o.update(bi, nb as u64);
